@@ -44,7 +44,8 @@ AddLabel(n, idxs) == /\ Len(hist) < D
                             labs == IF n \in NameSet(cur)
                                     THEN [i \in 1..Len(cur.labels) |-> IF cur.labels[i][1] = n THEN <<n, mask>> ELSE cur.labels[i]]
                                     ELSE Append(cur.labels, <<n, mask>>) IN
-                        \* (replacing the mask of an existing label may not uncover a point)
+                        \* (an index beyond the last point is refused; replacing the mask of an existing label may not uncover a point)
+                        IF \E i \in idxs : i >= N(cur) THEN Stay("add_label", <<n, idxs>>, "IndexError") ELSE
                         IF Covered([cur EXCEPT !.labels = labs]) THEN Go("add_label", <<n, idxs>>, [cur EXCEPT !.labels = labs])
                         ELSE Stay("add_label", <<n, idxs>>, "ValueError")
 RemoveLabel(n) == /\ Len(hist) < D
@@ -60,7 +61,7 @@ Init == cur \in Inits /\ hist = <<Rec("init", "", "", cur)>>
 Next == \/ \E k \in 1..3 : \E names \in Perms(NameSet(cur) \cup {Unknown}, k) :
               (Cardinality({i \in 1..k : names[i] = Unknown}) <= 1 /\ (k = 1 \/ Unknown \notin {names[i] : i \in 1..k})) /\ WithLabels(names)
         \/ \E S \in SUBSET (NameSet(cur) \cup {Unknown}) : S # {} /\ WithoutLabels(S)
-        \/ \E n \in {"zz_new"} \cup NameSet(cur), idxs \in {{0}, {1, N(cur) - 1}, 0..(N(cur) - 1)} : N(cur) >= 2 /\ AddLabel(n, idxs)
+        \/ \E n \in {"zz_new"} \cup NameSet(cur), idxs \in {{0}, {1, N(cur) - 1}, 0..(N(cur) - 1), {0, N(cur)}} : N(cur) >= 2 /\ AddLabel(n, idxs)
         \/ \E n \in NameSet(cur) \cup {Unknown} : RemoveLabel(n) \/ GetLabel(n)
 Spec == Init /\ [][Next]_vars
 \* ---- properties ----------------------------------------------------------------------------------
